@@ -246,6 +246,8 @@ def gen_opts(rng, n):
     o["early_stopping"] = rng.random() < 0.6
     o["bagging"] = rng.random() < 0.3
     o["seed"] = rng.randrange(1000)
+    if rng.random() < 0.08:
+        o["verbose"] = True
     return o
 
 
@@ -253,7 +255,11 @@ def gen_opts(rng, n):
 
 
 def run_greedy(task, opts, via_online=False):
-    """-> dict(outcome='ok'|'exc'|'toolong', indices, weights, rec, y, preds, ...)"""
+    """-> dict(outcome='ok'|'exc'|'toolong', indices, weights, rec, y, preds, ...); `task["history"]`: earlier
+    select() calls made on the same selector object; `opts["verbose"]`: the selector's trace printing (captured)"""
+    import contextlib
+    import io
+
     from deephyper.ensemble.selector import GreedySelector
 
     y, preds = build(task)
@@ -263,29 +269,23 @@ def run_greedy(task, opts, via_online=False):
     res.update(rec=rec, inner_agg=inner_agg, inner_loss=inner_loss)
     kw = {k: opts[k] for k in GREEDY_DEFAULTS}
     sel = GreedySelector(loss, agg, random_state=RS(opts.get("seed", 0)), verbose=bool(opts.get("verbose")), **kw)
-    import contextlib
-    import io
-
-    out_ = io.StringIO()  # verbose=True prints a trace of the selection: captured, not compared
-    stack = contextlib.ExitStack()
-    stack.enter_context(contextlib.redirect_stdout(out_))
-    res["_stack"] = stack
-    for h in task.get("history") or []:  # earlier select() calls on the same selector object
-        hy, hp = build(h)
-        rec.reset(hp, min(opts["k_init"], len(hp)))
+    with contextlib.redirect_stdout(io.StringIO()):
+        for h in task.get("history") or []:  # earlier select() calls on the same selector object
+            hy, hp = build(h)
+            rec.reset(hp, min(opts["k_init"], len(hp)))
+            try:
+                sel.select(hy, hp)
+            except Exception:  # noqa: BLE001 - an earlier call that failed / was cut off is part of the history too
+                pass
+        rec.reset(preds, min(opts["k_init"], n))
         try:
-            sel.select(hy, hp)
-        except Exception:  # noqa: BLE001 - an earlier call that failed / was cut off is part of the history too
-            pass
-    rec.reset(preds, min(opts["k_init"], n))
-    try:
-        idx, w = sel.select(y, preds)
-    except _TooLong:
-        res["outcome"] = "toolong"
-        return res
-    except Exception as e:  # noqa: BLE001
-        res.update(outcome="exc", exc=f"{type(e).__name__}: {str(e)[:160]}")
-        return res
+            idx, w = sel.select(y, preds)
+        except _TooLong:
+            res["outcome"] = "toolong"
+            return res
+        except Exception as e:  # noqa: BLE001
+            res.update(outcome="exc", exc=f"{type(e).__name__}: {str(e)[:160]}")
+            return res
     res.update(outcome="ok", indices=idx, weights=w)
     return res
 
@@ -753,7 +753,8 @@ def _online_case(ck, d, task, opts, fail_at, verbose=False):
             return super().select(y_, y_predictors)
 
     kw = {k: opts[k] for k in GREEDY_DEFAULTS}
-    online = OnlineSelector(y, Sel(None, None, **kw), None, lambda job_id: job_id)
+    proto = types.SimpleNamespace(predictors=None, weights=None, tag="ensemble-prototype")
+    online = OnlineSelector(y, Sel(None, None, **kw), proto, lambda job_id: ("loaded", job_id))
     n_ok = 0
     for j, p in enumerate(task["preds"]):
         if j in fail_at:
@@ -765,7 +766,7 @@ def _online_case(ck, d, task, opts, fail_at, verbose=False):
         n_ok += 1
         sub = dict(task, preds=[q for i, q in enumerate(task["preds"][:j + 1]) if i not in fail_at])
         try:
-            online.on_done(job)
+            (online.on_done_other if j % 3 == 2 else online.on_done)(job)  # jobs finished by other processes: same path
             res = dict(holder, outcome="ok", indices=online.selected_predictors_indexes,
                        weights=online.selected_predictors_weights)
         except _TooLong:
@@ -783,6 +784,13 @@ def _online_case(ck, d, task, opts, fail_at, verbose=False):
         ok_ids = [f"0.{i}" for i in range(j + 1) if i not in fail_at]
         if ids != [ok_ids[i] for i in res["indices"]]:
             ck.fail("C20|online-job-ids|OnlineSelector.selected_predictors_job_ids|", "job ids do not match the selected indexes", case)
+        # the ensemble handed out: the selected members, loaded in selected order, with the selected weights
+        ens = online.ensemble
+        if (ens is proto or getattr(ens, "tag", None) != "ensemble-prototype"
+                or list(ens.predictors) != [("loaded", i) for i in ids] or list(ens.weights) != list(res["weights"])
+                or proto.predictors is not None):
+            ck.fail("C20|online-ensemble|OnlineSelector.ensemble|", "ensemble does not hold the selected members with their weights",
+                    case, {"predictors": repr(getattr(ens, "predictors", None)), "weights": repr(getattr(ens, "weights", None))})
 
 
 def _predictor_case(ck, d, order, use_predict=False, loader=False, fail=None, evaluator="scripted", verbose=False):
